@@ -129,6 +129,10 @@ func (s *Stats) Class(c string, n int) {
 
 func (s *Stats) Diverged(w *sim.World) {
 	s.mu.Lock()
+	s.Excluded += w.RestartLostPending // genesis round trips that lost a pending owner (known finding F3)
+	if w.Restarts > 0 {
+		s.Classes["has-genesis-round-trip"]++
+	}
 	s.Divergences += len(w.Div)
 	for _, d := range w.Div {
 		if len(s.DivSamples) < 5 {
